@@ -53,6 +53,33 @@ type T41 struct {
 
 func (e *T41) get() (int, *pubInfo) { return e.V, e.p }
 
+// U02..U05: four more event types, chosen so that the 46 harness types cover all 32 shards
+type U02 struct {
+	V   int `json:"v"`
+	Bad any `json:"bad,omitempty"`
+	p   *pubInfo
+}
+type U03 struct {
+	V   int `json:"v"`
+	Bad any `json:"bad,omitempty"`
+	p   *pubInfo
+}
+type U04 struct {
+	V   int `json:"v"`
+	Bad any `json:"bad,omitempty"`
+	p   *pubInfo
+}
+type U05 struct {
+	V   int `json:"v"`
+	Bad any `json:"bad,omitempty"`
+	p   *pubInfo
+}
+
+func (e U02) get() (int, *pubInfo) { return e.V, e.p }
+func (e U03) get() (int, *pubInfo) { return e.V, e.p }
+func (e U04) get() (int, *pubInfo) { return e.V, e.p }
+func (e U05) get() (int, *pubInfo) { return e.V, e.p }
+
 func getVP(e any) (int, *pubInfo) {
 	switch x := e.(type) {
 	case busEvt:
@@ -128,6 +155,9 @@ type recStore struct {
 func tyOfName(name string) int {
 	if name == "json.RawMessage" {
 		return 40
+	}
+	if strings.HasPrefix(name, "main.U0") {
+		return 40 + atoi(name[len("main.U0"):])
 	}
 	if strings.HasPrefix(name, "n") && strings.Contains(name, ".v") {
 		return atoi(name[1:strings.Index(name, ".v")])
@@ -238,6 +268,7 @@ type regSpec struct {
 
 type typeOps struct {
 	subscribe   func(cs *busCase, r regSpec)
+	subscribeNil func(cs *busCase, hid int) error
 	unsubscribe func(cs *busCase, hid int) error
 	clear       func(cs *busCase)
 	has         func(cs *busCase) bool
@@ -311,21 +342,61 @@ func ctxLit[T any](cs *busCase, ty, hid, rid int) func(context.Context, T) {
 	}
 }
 
+var sharedOnce, sharedAsync, sharedSequential = eb.Once(), eb.Async(), eb.Sequential()
+
+// panic values with a twist: formatting them runs user code that may itself misbehave
+type nilDerefErr struct{ msg string }
+
+func (e *nilDerefErr) Error() string { return e.msg } // panics on a nil receiver
+
+type panickyStringer struct{ k int }
+
+func (p panickyStringer) String() string { panic("String() of a panic value panics") }
+
+func panicValue(k int) any {
+	switch k {
+	case 8:
+		var e *nilDerefErr // the classic typed-nil error
+		return error(e)
+	case 7:
+		return panickyStringer{7}
+	case 6:
+		return errors.New("6")
+	}
+	return k
+}
+
+func panicCode(v any) string {
+	switch x := v.(type) {
+	case *nilDerefErr:
+		if x == nil {
+			return "8"
+		}
+	case panickyStringer:
+		return "7"
+	case error:
+		return x.Error()
+	}
+	return fmt.Sprint(v)
+}
+
 func mkOps[T any](ty int, mk func(v int, bad any, p *pubInfo) T) typeOps {
 	return typeOps{
 		subscribe: func(cs *busCase, r regSpec) {
 			rid := cs.nextRid
 			cs.nextRid++
 			cs.ridBody[rid] = r.body
+			// option values are created once and reused for every subscription (a caller may keep
+			// `opts := []SubscribeOption{Once(), Async()}` around): they must not carry per-subscription state
 			var opts []eb.SubscribeOption
 			if r.once {
-				opts = append(opts, eb.Once())
+				opts = append(opts, sharedOnce)
 			}
 			if r.async {
-				opts = append(opts, eb.Async())
+				opts = append(opts, sharedAsync)
 			}
 			if r.seq {
-				opts = append(opts, eb.Sequential())
+				opts = append(opts, sharedSequential)
 			}
 			if r.filtM > 0 {
 				opts = append(opts, eb.WithFilter(func(e T) bool {
@@ -344,6 +415,12 @@ func mkOps[T any](ty int, mk func(v int, bad any, p *pubInfo) T) typeOps {
 			if err != nil {
 				cs.emit("!subscribe-error %v", err)
 			}
+		},
+		subscribeNil: func(cs *busCase, hid int) error {
+			if hid >= 6 {
+				return eb.SubscribeContext(cs.bus, ctxLit[T](cs, ty, hid, -2), sharedOnce, nil)
+			}
+			return eb.Subscribe(cs.bus, plainLit[T](cs, ty, hid, -2), sharedOnce, nil)
 		},
 		unsubscribe: func(cs *busCase, hid int) error {
 			if hid >= 6 {
@@ -373,7 +450,7 @@ func parseAct(f []string) (action, bool) {
 		return action{}, false
 	}
 	switch f[0] {
-	case "sub", "unsub", "clear", "clearall", "pub", "cancel", "cancelid", "panic", "has", "count", "drain", "readlog", "wait":
+	case "sub", "unsub", "clear", "clearall", "pub", "cancel", "cancelid", "panic", "has", "count", "drain", "readlog", "wait", "subnil", "setpanich":
 		return action{f[0], f[1:]}, true
 	}
 	return action{}, false
@@ -449,7 +526,19 @@ func (cs *busCase) do(a action) {
 		if d == 0 {
 			return
 		}
-		panic(arg(0))
+		panic(panicValue(arg(0)))
+	case "subnil":
+		// a nil option is refused and must leave no trace of the attempted subscription
+		if err := allOps[arg(0)].subscribeNil(cs, arg(1)); err == nil {
+			cs.emit("!subscribe-with-nil-option was accepted")
+		}
+	case "setpanich":
+		// the setter, used between publishes: from now on panics are reported to this handler (or to none)
+		if arg(0) == 1 {
+			cs.bus.SetPanicHandler(cs.panicHandler("panich2"))
+		} else {
+			cs.bus.SetPanicHandler(nil)
+		}
 	case "readlog":
 		st := cs.bus.GetStore()
 		if st == nil {
@@ -580,10 +669,7 @@ func busDomain(lines []string) []string {
 				case w == "ac":
 					opts = append(opts, eb.WithAfterPublishContext(func(c context.Context, t reflect.Type, e any) { cs.hook("ac", t, e) }))
 				case w == "panich":
-					opts = append(opts, eb.WithPanicHandler(func(e any, ht reflect.Type, val any) {
-						v, p := getVP(e)
-						cs.emit("panich %d %s %d %d %v", p.depth, b01(ht.NumIn() == 2), tyOfName(reflect.TypeOf(e).String()), v, val)
-					}))
+					opts = append(opts, eb.WithPanicHandler(cs.panicHandler("panich")))
 				case w == "perrh":
 					opts = append(opts, eb.WithPersistenceErrorHandler(func(e any, t reflect.Type, err error) {
 						v, p := getVP(e)
@@ -652,6 +738,18 @@ func busDomain(lines []string) []string {
 		cs.emit("%s", cs.otel.summary())
 	}
 	return cs.out
+}
+
+// panicHandler: both the option-installed and the setter-installed handler print the same line (the model does
+// not distinguish them); which one ran is visible in the ~ information line
+func (cs *busCase) panicHandler(which string) eb.PanicHandler {
+	return func(e any, ht reflect.Type, val any) {
+		v, p := getVP(e)
+		if which != "panich" {
+			cs.emit("~%s", which)
+		}
+		cs.emit("panich %d %s %d %d %s", p.depth, b01(ht.NumIn() == 2), tyOfName(reflect.TypeOf(e).String()), v, panicCode(val))
+	}
 }
 
 func (cs *busCase) hook(kind string, t reflect.Type, e any) {
